@@ -50,6 +50,15 @@ class BinarySearchTreeAdapted1D(Sampling):
             )
         self._coordinates_left_axis = 0, self.origin_coordinate - 1
         self._coordinates_right_axis = self.origin_coordinate + 1, len(self.axis) - 1
+        # cell of each state: from the boundary with its left neighbour to the boundary with its right neighbour,
+        # the boundary being the grid's own middle point (which is not the arithmetic one for every grid)
+        axis, last = self.axis, len(self.axis) - 1
+        self._cell_left = [axis[0]] + [
+            grid.middle(axis[k - 1], axis[k]) for k in range(1, last + 1)
+        ]
+        self._cell_right = [grid.middle(axis[k], axis[k + 1]) for k in range(last)] + [
+            axis[last]
+        ]
 
     @lru_cache(maxsize=2**18)
     def _compute_probability(self, a, b):
@@ -60,7 +69,6 @@ class BinarySearchTreeAdapted1D(Sampling):
         return res
 
     def sample_with_u(self, u: float):
-        axis = self.axis
         left, right = self._coordinates_left_axis
         current_p = u
         if u > self._proba_left_axis:
@@ -70,9 +78,7 @@ class BinarySearchTreeAdapted1D(Sampling):
         while left != right:
             middle = (left + right) // 2
             l, r = left, middle  # choose left interval by default
-            a, b = 0.5 * (axis[max(0, l - 1)] + axis[l]), 0.5 * (
-                axis[r] + axis[min(len(axis) - 1, r + 1)]
-            )
+            a, b = self._cell_left[l], self._cell_right[r]
             p = self._compute_probability(a, b)
 
             if current_p > p:
